@@ -28,8 +28,8 @@ Lemma C20_cfg_ok : cfg_ok_C20.
 Proof. split; [reflexivity|split; reflexivity]. Qed.
 (* the lookup functions have the modelled shape: scan of the member list by identity or id (theorem C20_lookup_agree is about
    exactly that scan) *)
-Lemma C20_lookup_shape_ok : grp_lookup_ok = true.
-Proof. reflexivity. Qed.
+Lemma C20_lookup_shape_ok : grp_lookup_ok = true /\ xspec_eq_by_text = true.
+Proof. split; reflexivity. Qed.
 
 (* a repeated key of either kind is rejected with ValueError *)
 Theorem C20_dup : forall kvs,
